@@ -49,10 +49,11 @@ def handle (op : String) (args : List String) : Option String :=
   | "c11.convertbits", [d, f, t, p] => some <|
       match parseNatList? d, parseNat? f, parseNat? t, parseNat? p with
       | some d, some f, some t, some p =>
-          if t = 0 then badArgs else
-          (match convertbits d f t (p != 0) with
-           | none => "none"
-           | some r => "[" ++ showNats r ++ "]")
+          if h : 0 < t then
+            (match convertbits d f t (p != 0) h with
+             | none => "none"
+             | some r => "[" ++ showNats r ++ "]")
+          else badArgs                                   -- outside the precondition of convertbits
       | _, _, _, _ => badArgs
   | "c11.b32enc", [h, d] => some <| match parseStr? h, parseNatList? d with
       | some h, some d =>
